@@ -58,6 +58,29 @@ class Unit:
         interp.loop_contracts = dict(self.loops)
         res.interp = interp
         closure = self.closure(interp) if callable(self.closure) else (self.closure or [])
+        if "::loop#" in self.target or "::after#" in self.target:
+            # a contract on an extracted block names the block's free variables (closure) and outputs: a name that the block's
+            # text does not mention means that the contract was written for another text (renamed temporary): undecided
+            import ast as _ast
+            mentioned = set()
+            src = getattr(ext.node, "source_node", None)
+            orig = list(src.body) if src is not None else list(getattr(ext.node, "after_nodes", None) or ext.node.body)
+            nodes = orig + [x for x in (getattr(ext.node, "loop_target", None), getattr(ext.node, "loop_iter", None)) if x is not None]
+            for top in nodes:
+                for n in _ast.walk(top):
+                    if isinstance(n, _ast.Name):
+                        mentioned.add(n.id)
+            supplied = set()
+            for d in closure:
+                if isinstance(d, dict):
+                    supplied |= set(d)
+            # (the closure is filled by make_inputs; its keys are known only then: checked again there)
+            self._block_names = mentioned
+            outs = self.target.split(">", 1)[1].split(",") if ">" in self.target.split("::")[-1] else []
+            missing = sorted(k for k in supplied | set(o for o in outs if o) if k not in mentioned)
+            if missing:
+                res.unsupported.append("the contract supplies %s to this block, which its text does not mention (renamed temporary?): the contract does not apply" % missing)
+                return res
         fn = VFunc(ext, closure, qualname=self.target)
 
         def _objects(args, kwargs, C):
@@ -96,6 +119,15 @@ class Unit:
 
         def mk(st):
             args, kwargs, C = self.make_inputs(st, interp)
+            if getattr(self, "_block_names", None) is not None:
+                supplied = set()
+                for d in closure:
+                    if isinstance(d, dict):
+                        supplied |= set(d)
+                missing = sorted(k for k in supplied if k not in self._block_names)
+                if missing:
+                    raise Unsupported("the contract supplies %s to this block, which its text does not mention (renamed temporary?): "
+                                      "the contract does not apply" % missing)
             objs = _objects(args, kwargs, C)
             st.ghost["frame_snapshot"] = [(o, dict(o.attrs)) for o in objs]
             st.ghost["illegal_writes"] = []
